@@ -184,7 +184,7 @@ fn progress_tick(n: u64) {
 }
 
 fn exec_table<H: FastHash + Default>(ops: &[TOp], uni: &[u32], obs: &mut Vec<String>) {
-    let mut t: MediumSizeHashTable<u32, i64, H> = MediumSizeHashTable::new();
+    let mut t: MediumSizeHashTable<u32, i64, H> = if ops.len() % 2 == 0 { MediumSizeHashTable::default() } else { MediumSizeHashTable::new() };
     let hasher = H::default();
     obs.push(format!("D cap={}", t.capacity()));
     for k in uni {
@@ -217,7 +217,7 @@ fn exec_table<H: FastHash + Default>(ops: &[TOp], uni: &[u32], obs: &mut Vec<Str
 
 fn exec_tiny(lines: &[&String], obs: &mut Vec<String>) {
     let mut uni: Vec<u32> = Vec::new();
-    let mut t: TinyTable<u32, i64> = TinyTable::new();
+    let mut t: TinyTable<u32, i64> = if lines.len() % 2 == 0 { TinyTable::default() } else { TinyTable::new() };
     let mut j = 0;
     for l in lines {
         let w: Vec<&str> = l.split_whitespace().collect();
